@@ -181,7 +181,7 @@ func runC06x(c *Ctx) {
 	P := c.P
 	c.Rule("C06-R7", "W+S", "every state.Backend implementation checkpoints through osutil.AtomicWriteFile (temporary name, fsync, rename, directory fsync) and never opens the destination itself", 2)
 	atomicWrite := P.FuncObj("osutil.AtomicWriteFile")
-	bad := map[string]bool{"os.OpenFile": true, "os.Create": true, "os.WriteFile": true, "io/ioutil.WriteFile": true}
+	bad := map[string]bool{"os.OpenFile": true, "os.Create": true, "os.WriteFile": true, "io/ioutil.WriteFile": true, "os.Rename": true, "os.Remove": true, "os.RemoveAll": true}
 	n := 0
 	for _, fn := range P.AllFuncs() {
 		if fn.Name() != "Checkpoint" || fn.Signature.Recv() == nil || fn.Signature.Params().Len() != 1 || fn.Signature.Results().Len() != 1 {
@@ -224,7 +224,7 @@ func runC06x(c *Ctx) {
 				}
 			}
 		}
-		c.Check(len(direct) == 0, name+"#no-direct-open", fn.Pos(), "the destination is never opened under its final name", fmt.Sprintf("%s opens or writes the destination itself (%v): the file exists under its final name before its content is durable", name, direct))
+		c.Check(len(direct) == 0, name+"#no-direct-open", fn.Pos(), "the destination is never opened, moved or removed", fmt.Sprintf("%s opens, moves or removes the destination itself (%v): between that and the atomic write there is no complete checkpoint under the final name", name, direct))
 	}
 	if n < 2 {
 		c.Undecided("state.Backend#implementations", token.NoPos, fmt.Sprintf("expected the overlord backend and the CopyState backend, found %d Checkpoint implementations", n))
